@@ -111,6 +111,21 @@ class UnitCheck:
             return ANY
         return a if a in (DU, PX) else b
 
+    def _const(self, x):
+        fn = self.fn
+        n = fn.strip_all_casts(x)
+        neg = False
+        if n['k'] == 'UnaryOperator' and n.get('op') == '-' and n.get('c'):
+            n, neg = fn.strip_all_casts(n['c'][0]), True
+        v = n.get('v')
+        if v is None and n['k'] == 'FloatingLiteral':
+            v = n.get('fv', n.get('val'))
+        try:
+            v = float(v)
+        except (TypeError, ValueError):
+            return None
+        return -v if neg else v
+
     def _flag(self, e, text):
         fn = self.fn
         key = (e.get('ln'), e.get('col'), text)
@@ -180,6 +195,13 @@ class UnitCheck:
                 u = self._combine(e, a, b, 'the %s' % ('sum' if op == '+' else 'difference'))
             elif op in ('<', '>', '<=', '>=', '==', '!='):
                 self._combine(e, a, b, 'the comparison')
+                # a threshold in absolute numbers is a design-unit threshold: the same test on a pixel value flips with the scale
+                for side, other in ((a, c[1]), (b, c[0])):
+                    if side == PX:
+                        k_ = self._const(other)
+                        if k_ is not None and k_ != 0:
+                            self._flag(e, 'a pixel value is compared with the absolute threshold %s (the outcome depends on the scale; '
+                                          'with font == NULL the same test is made in design units)' % k_)
                 u = ANY
             elif op == '*':
                 u = self._mul(e, a, b)
